@@ -16,7 +16,7 @@ fraction).
                          that `scipy.integrate.quad` returns the value of the integral is its contract, measured by
                          the correspondence check)
   * `pfNormLoadCode`   = `pf_norm_load(load_median, load_std, lower_limit, upper_limit)` AS THE CODE COMPUTES IT
-                         (repaired code, commit 2a91979 + tools/fixes/C15-pf-norm-load-break-points-clear-of-limits.diff):
+                         (repaired code, repo commits 2a91979 + 04bca38):
                          the limits are standardised (`t = (log10 load − log10 load_median) / load_std`, default ±16, explicit ones
                          clipped to ±16),
                          `loc = s_50 − log10 load_median`; for `loc ≥ 0` the result is `quad(pdf(t) · cdf((sc·t − loc)/s_std))`,
